@@ -65,7 +65,7 @@ Section Local3.
 
   (* task sources cannot be deregistered *)
   Theorem task_dereg_eperm cur w m key : exists t a, exec sc run_cb cur w (CSrcDereg m KTask key) = ret (emit w (TMark t a)) rEPERM.
-  Proof. unfold exec, exec_call. cbn [call_handle]. eauto. Qed.
+  Proof. unfold exec, exec_own, exec_call. cbn [call_handle]. eauto. Qed.
 
   (* ================= C02 / C08: copies and pipes ================= *)
 
